@@ -398,6 +398,14 @@ pub fn fingerprint(rec: &RunRecord) -> (u64, bool) {
                 nontrivial = true;
                 h = crate::prng::fnv_add(h, &[0xF1]);
             }
+            EvKind::Crash { ent } => {
+                nontrivial = true;
+                h = crate::prng::fnv_add(h, &[0xF3, *ent as u8]);
+            }
+            EvKind::Restart { ent } => {
+                nontrivial = true;
+                h = crate::prng::fnv_add(h, &[0xF4, *ent as u8]);
+            }
             EvKind::Fs { op: crate::world::FsOp::Open { injected: true, .. }, .. } => {
                 nontrivial = true;
                 h = crate::prng::fnv_add(h, &[0xF2]);
@@ -462,6 +470,8 @@ pub fn render_ev(e: &Ev) -> String {
             EvKind::Sample { put, digest } => format!("    dest(put#{}) = {:?}", put, digest),
             EvKind::Blackout { src, dst, on } => format!("BLACKOUT {}>{} {}", src, dst, if *on { "on" } else { "off" }),
             EvKind::ClockJump { us } => format!("CLOCKJUMP {}us", us),
+            EvKind::Crash { ent } => format!("CRASH entity {}", ent),
+            EvKind::Restart { ent } => format!("RESTART entity {}", ent),
             EvKind::Panic { msg } => format!("PANIC {}", msg),
             EvKind::Note { msg } => format!("note {}", msg),
         };
